@@ -56,7 +56,7 @@ func c01apply_ELEMTYPE(rank int) {
 func c01applySlice_ELEMTYPE(rank int, copyFrom bool) {
 	// quick tier, rank >= 2: both root arrays are B x B (x B); every smaller view extent is
 	// enumerated.  thorough tier: every root shape as well.
-	fullRoot := rank >= 2 && !vsym.Thorough()
+	fullRoot := rank >= 2 && !c01deep_ELEMTYPE()
 	r, n, off := c01rootx_ELEMTYPE(rank, fullRoot)
 	v, vd, org, stp := c01onev_ELEMTYPE("v", r, n)
 	// source: a second, independent array with its own stepped view
